@@ -59,7 +59,9 @@ type aggSession struct {
 	model  *aggModel
 	prop   string
 	keyCat []int
-	keyV6  []bool
+	// unresKey-1: the key whose source-node records name no Pod (0: none); see aggRec.Unres
+	unresKey int
+	keyV6    []bool
 	// corrListed: the fields named in AggregationInput.CorrelateFields
 	corrListed map[string]bool
 	msgCh      chan *entities.Message
@@ -99,6 +101,7 @@ func newAggSession(env *Env, prop string) (*aggSession, error) {
 		s.keyCat = append(s.keyCat, int(cfgOr(pl, fmt.Sprintf("cat%d", k), catIntra)))
 		s.keyV6 = append(s.keyV6, cfgOr(pl, fmt.Sprintf("v6%d", k), 0) == 1)
 	}
+	s.unresKey = int(cfgOr(pl, "unres_key", 0))
 	active := time.Duration(cfgOr(pl, "active_ms", 1000)) * time.Millisecond
 	inactive := time.Duration(cfgOr(pl, "inactive_ms", 3000)) * time.Millisecond
 	intermediate.MaxRetries = int(cfgOr(pl, "max_retries", 2))
@@ -369,9 +372,15 @@ func (s *aggSession) recOf(op plan.Op) aggRec {
 	if !catNeedsCorrelation(cat) {
 		node = nodeSingle
 	}
-	return aggRec{Key: key, Node: node, Cat: cat, Start: uint32(n[0]), End: uint32(n[1]),
+	rec := aggRec{Key: key, Node: node, Cat: cat, Start: uint32(n[0]), End: uint32(n[1]),
 		Tot: [4]uint64{uint64(n[2]), uint64(n[3]), uint64(n[4]), uint64(n[5])}, Delta: [2]uint64{uint64(n[6]), uint64(n[7])},
 		TCPState: op.S, Corr: corrValues(key, node, cat, v6, op.D), Layout: int(op.D % 3), HTTP: httpValsOf(op.D, uint32(n[1]))}
+	if s.unresKey == key+1 && node == nodeSrc && (cat == catInter || cat == catInterIngDrop) {
+		rec.Unres = true
+		rec.Corr["sourcePodName"] = ""
+		s.env.Count("probe.source_record_without_pod_names", 1)
+	}
+	return rec
 }
 
 // ---- reading the real process -------------------------------------------------
